@@ -24,6 +24,8 @@ def run(chk, tier):
     chk.guarded(r_weekday_match, P)
     chk.guarded(r_daycount_consts, P)
     chk.guarded(r_isoweek, P)
+    chk.guarded(r_year_uses, P)
+    chk.guarded(r_cycle, P, tier)
     chk.assume("the branchy arithmetic that combines the verified tables (from_isoywd_opt spill, cycle_to_yo, succ/pred rollover) "
                "is not decided here")
     return {
@@ -240,3 +242,211 @@ def r_isoweek(chk, P):
     chk.expect(len(shr) == 1 and const_of(shr[0][3]) == 4 and len(andm) == 1 and const_of(andm[0][3]) == 0x3f, "IsoWeek::week", "week() is not (ywf >> 4) & 0x3f: " + pp(w))
     c = consts_in_fn(P, "naive::isoweek::IsoWeek::from_yof", ops=("Shl",))
     chk.expect(c.get(10, 0) >= 1 and c.get(4, 0) >= 1, "IsoWeek::from_yof", "from_yof does not shift year by 10 and week by 4: %s" % c)
+
+
+# ---- finite maps over the 400-year cycle (constructors, accessors, successor) ---------------------------
+
+def _c(v):
+    return ("const", v)
+
+
+def _date(yof):
+    return ("agg", "adt", ND, "NaiveDate", (_c(yof),), 0)
+
+
+def _wd(P, i):
+    return ("agg", "adt", "weekday::Weekday", P.adts["weekday::Weekday"]["variants"][i]["name"], (), i)
+
+
+def _yof_of(shown):
+    """yof integer of a folded Option<NaiveDate> / NaiveDate, 'None', or the raw value"""
+    if shown == "Option::None":
+        return None
+    if isinstance(shown, tuple) and shown and shown[0] == "Option::Some":
+        shown = shown[1]
+    if isinstance(shown, tuple) and shown and shown[0] == "NaiveDate::NaiveDate":
+        return shown[1]
+    return ("?", shown)
+
+
+def r_year_uses(chk, P):
+    """periodicity lemma: the constructors use the year only through its class (year mod 400), its packed position and the range test"""
+    chk.rule("USES.year", "constructors use `year` only via YearFlags::from_year, `<< 13`, the MIN_YEAR/MAX_YEAR test and checked +-1", floor=5)
+    allowed_calls = ("YearFlags::from_year", "NaiveDate::from_mdf", "NaiveDate::from_ordinal_and_flags", "checked_add", "checked_sub")
+    for fn in ("from_ymd_opt", "from_yo_opt", "from_mdf", "from_ordinal_and_flags", "from_isoywd_opt"):
+        full = ND + "::" + fn
+        bad = []
+        for p in Sym(P, full).paths():
+            for t in [c[1] for c in p.conds] + ([p.ret] if p.ret else []) + list(p.calls):
+                for x in walk_terms(t):
+                    if x[0] == "call" and ("arg", 1) in x[2]:
+                        if not any(str(x[1]).endswith(a) for a in allowed_calls):
+                            bad.append(pp(x)[:80])
+                    elif x[0] == "bin" and ("arg", 1) in (x[2], x[3]):
+                        op = x[1].replace("WithOverflow", "")
+                        other = x[3] if x[2] == ("arg", 1) else x[2]
+                        ok = (op == "Shl" and const_of(other) == 13) or (op in ("Lt", "Gt", "Le", "Ge") and other[0] == "named" and other[1].endswith(("MIN_YEAR", "MAX_YEAR")))
+                        if not ok:
+                            bad.append(pp(x)[:80])
+                    elif x[0] in ("cast", "un") and x[1 if x[0] == "cast" else 2] == ("arg", 1):
+                        bad.append(pp(x)[:80])
+        chk.expect(not bad, fn, "%s uses the year argument outside the periodic pattern: %s" % (fn, bad[:2]), loc=P.loc(full))
+    r = [p.ret for p in Sym(P, INT + "::YearFlags::from_year").paths() if p.end[0] == "return"]
+    ok = len(r) == 1 and any(is_call_(x, "rem_euclid") and const_of(x[2][1]) == 400 and x[2][0] == ("arg", 1) for x in walk_terms(r[0]))
+    chk.expect(ok, "YearFlags::from_year", "from_year is not the table lookup at year.rem_euclid(400): %s" % [pp(x) for x in r])
+
+
+def is_call_(x, suffix):
+    return x[0] == "call" and isinstance(x[1], str) and x[1].endswith(suffix)
+
+
+def r_cycle(chk, P, tier):
+    from finmap import Folder, show, Unknown
+    fo = Folder(P, max_depth=10)
+    tbl = [flags_of(c) for c in table_value(P, INT + "::YEAR_TO_FLAGS")]
+    miny, maxy = P.value("naive::date::MIN_YEAR"), P.value("naive::date::MAX_YEAR")
+
+    def exp_yof(y, o):
+        return (y << 13) | (o << 4) | tbl[y % 400]
+
+    def in_range(y):
+        return miny <= y <= maxy
+
+    def call(fn, args):
+        try:
+            return show(fo.call(fn, args))
+        except Unknown as e:
+            return "unknown: %s" % e
+
+    # year domain: one representative per year class (thorough: the whole 400-year cycle and a negative cycle)
+    reps = {}
+    for y in range(2000, 2400):
+        reps.setdefault(tbl[y % 400], y)
+    years = sorted(reps.values())
+    if tier == "thorough":
+        years = list(range(2000, 2400)) + list(range(-400, 0, 7))
+    nyears = len(years)
+
+    chk.rule("CYCLE.from_ymd", "from_ymd_opt(y, m, d) for every year class x m in 0..=13 x d in 0..=32 is the calendar's date, or None", floor=1)
+    bad = None
+    n = 0
+    for y in years:
+        for m in range(0, 14):
+            for d in range(0, 33):
+                n += 1
+                valid = 1 <= m <= 12 and 1 <= d <= cal.days_in_month(y, m)
+                want = exp_yof(y, cal.ordinal(y, m, d)) if valid else None
+                got = _yof_of(call(ND + "::from_ymd_opt", [_c(y), _c(m), _c(d)]))
+                if got != want and bad is None:
+                    bad = ((y, m, d), got, want)
+    chk.expect(bad is None, "from_ymd_opt", "from_ymd_opt%s = %s, calendar says %s" % (bad or ((), 0, 0)), loc=P.loc(ND + "::from_ymd_opt"), detail_ok="%d argument tuples, %d years" % (n, nyears))
+
+    chk.rule("CYCLE.from_yo", "from_yo_opt(y, o) for every year class x o in 0..=367", floor=1)
+    bad = None
+    n = 0
+    for y in years:
+        for o in range(0, 368):
+            n += 1
+            want = exp_yof(y, o) if 1 <= o <= cal.days_in_year(y) else None
+            got = _yof_of(call(ND + "::from_yo_opt", [_c(y), _c(o)]))
+            if got != want and bad is None:
+                bad = ((y, o), got, want)
+    chk.expect(bad is None, "from_yo_opt", "from_yo_opt%s = %s, calendar says %s" % (bad or ((), 0, 0)), loc=P.loc(ND + "::from_yo_opt"), detail_ok="%d argument tuples" % n)
+
+    chk.rule("CYCLE.dates", "month/day, weekday, ISO week and successor of every date of the year-class representatives agree with the calendar", floor=4)
+    errs = {}
+    n = 0
+    for y in years:
+        ndays = cal.days_in_year(y)
+        for o in range(1, ndays + 1):
+            n += 1
+            d = _date(exp_yof(y, o))
+            m_, d_ = cal.from_ordinal(y, o)
+            wd = cal.weekday(y, m_, d_)
+            r = call("<naive::date::NaiveDate as traits::Datelike>::month", [("ref", d)])
+            if r != m_:
+                errs.setdefault("month", ((y, o), r, m_))
+            r = call("<naive::date::NaiveDate as traits::Datelike>::day", [("ref", d)])
+            if r != d_:
+                errs.setdefault("day", ((y, o), r, d_))
+            r = call(ND + "::weekday", [("ref", d)])
+            if r != "Weekday::" + ["Mon", "Tue", "Wed", "Thu", "Fri", "Sat", "Sun"][wd]:
+                errs.setdefault("weekday", ((y, o), r, wd))
+            r = _yof_of(call(ND + "::succ_opt", [("ref", d)]))
+            want = exp_yof(y, o + 1) if o < ndays else exp_yof(y + 1, 1)
+            if r != want:
+                errs.setdefault("succ_opt", ((y, o), r, want))
+            if tier == "thorough" or o <= 7 or o >= ndays - 7:
+                r = _yof_of(call(ND + "::pred_opt", [("ref", d)]))
+                want = exp_yof(y, o - 1) if o > 1 else exp_yof(y - 1, cal.days_in_year(y - 1))
+                if r != want:
+                    errs.setdefault("pred_opt", ((y, o), r, want))
+                iy, iw, iwd = cal.iso_week(y, m_, d_)
+                w = call("<naive::date::NaiveDate as traits::Datelike>::iso_week", [("ref", d)])
+                ywf = w[1] if isinstance(w, tuple) and len(w) == 2 else None
+                if not isinstance(ywf, int) or (ywf >> 10, (ywf >> 4) & 0x3f) != (iy, iw):
+                    errs.setdefault("iso_week", ((y, o), w, (iy, iw)))
+                dn = call(ND + "::num_days_from_ce", [("ref", d)])
+                if dn != cal.day_number(y, m_, d_):
+                    errs.setdefault("num_days_from_ce", ((y, o), dn, cal.day_number(y, m_, d_)))
+                back = _yof_of(call(ND + "::from_num_days_from_ce_opt", [_c(cal.day_number(y, m_, d_))]))
+                if back != exp_yof(y, o):
+                    errs.setdefault("from_num_days_from_ce_opt", ((y, o), back, exp_yof(y, o)))
+    for k in ("month", "day", "weekday", "succ_opt", "pred_opt", "iso_week", "num_days_from_ce", "from_num_days_from_ce_opt"):
+        chk.expect(k not in errs, k, "%s deviates from the calendar at (year, ordinal) %s: got %s, expected %s" % ((k,) + errs.get(k, ((), 0, 0))), detail_ok="%d dates" % n)
+
+    chk.rule("CYCLE.from_isoywd", "from_isoywd_opt(y, w, wd) for w in 0..=54 and all weekdays is the calendar's ISO week date (incl. spill into the neighbour years)", floor=1)
+    # oracle: ISO week dates of year y by enumeration of the days around it
+    bad = None
+    n = 0
+    iso_years = years if tier == "thorough" else years
+    for y in iso_years:
+        table = {}
+        for yy in (y - 1, y, y + 1):
+            for o in range(1, cal.days_in_year(yy) + 1):
+                m_, d_ = cal.from_ordinal(yy, o)
+                iy, iw, iwd = cal.iso_week(yy, m_, d_)
+                if iy == y:
+                    table[(iw, iwd - 1)] = exp_yof(yy, o)
+        for w in range(0, 55):
+            for wd in range(7):
+                n += 1
+                want = table.get((w, wd))
+                got = _yof_of(call(ND + "::from_isoywd_opt", [_c(y), _c(w), _wd(P, wd)]))
+                if got != want and bad is None:
+                    bad = ((y, w, wd), got, want)
+    chk.expect(bad is None, "from_isoywd_opt", "from_isoywd_opt%s = %s, calendar says %s" % (bad or ((), 0, 0)), loc=P.loc(ND + "::from_isoywd_opt"), detail_ok="%d argument tuples" % n)
+
+    chk.rule("CYCLE.range_ends", "constructors, successor and day numbers at both ends of the supported range and at the integer extremes", floor=20)
+    i32min, i32max = -(1 << 31), (1 << 31) - 1
+    for y in (miny - 1, miny, miny + 1, maxy - 1, maxy, maxy + 1, i32min, i32max):
+        for (m, d) in ((1, 1), (12, 31)):
+            want = exp_yof(y, cal.ordinal(y % 400 + 2000, m, d)) if in_range(y) else None
+            got = _yof_of(call(ND + "::from_ymd_opt", [_c(y), _c(m), _c(d)]))
+            chk.expect(got == want, "from_ymd_opt(%d,%d,%d)" % (y, m, d), "from_ymd_opt(%d, %d, %d) = %s, expected %s" % (y, m, d, got, want))
+        want = exp_yof(y, 1) if in_range(y) else None
+        got = _yof_of(call(ND + "::from_yo_opt", [_c(y), _c(1)]))
+        chk.expect(got == want, "from_yo_opt(%d,1)" % y, "from_yo_opt(%d, 1) = %s, expected %s" % (y, got, want))
+    # ISO week dates touching the ends: the first and last representable dates via their ISO forms
+    for (y, o) in ((miny, 1), (miny, 2), (maxy, cal.days_in_year(maxy % 400 + 2000)), (maxy, cal.days_in_year(maxy % 400 + 2000) - 1)):
+        yy = y % 400 + 2000
+        m_, d_ = cal.from_ordinal(yy, o)
+        iy, iw, iwd = cal.iso_week(yy, m_, d_)
+        iy = iy - yy + y
+        got = _yof_of(call(ND + "::from_isoywd_opt", [_c(iy), _c(iw), _wd(P, iwd - 1)]))
+        chk.expect(got == exp_yof(y, o), "from_isoywd_opt(%d,W%d,%d)" % (iy, iw, iwd), "from_isoywd_opt(%d, %d, %d) = %s, expected the date (%d, ordinal %d)" % (iy, iw, iwd, got, y, o))
+    for (iy, iw) in ((miny - 1, 1), (maxy + 1, 53), (i32min, 1), (i32max, 52)):
+        got = call(ND + "::from_isoywd_opt", [_c(iy), _c(iw), _wd(P, 0)])
+        ok = got == "Option::None" or (iy in (miny - 1, maxy + 1) and isinstance(_yof_of(got), int) and in_range(_yof_of(got) >> 13))
+        chk.expect(ok, "from_isoywd_opt(%d,W%d)" % (iy, iw), "from_isoywd_opt(%d, %d, Mon) = %s: must be None or a date inside the range" % (iy, iw, got))
+    last = exp_yof(maxy, cal.days_in_year(maxy % 400 + 2000))
+    first = exp_yof(miny, 1)
+    chk.expect(call(ND + "::succ_opt", [("ref", _date(last))]) == "Option::None", "succ_opt(MAX)", "succ_opt(MAX) is not None")
+    chk.expect(call(ND + "::pred_opt", [("ref", _date(first))]) == "Option::None", "pred_opt(MIN)", "pred_opt(MIN) is not None")
+    yy = maxy % 400 + 2000
+    dn_max = cal.day_number(yy, 12, 31) + (maxy - yy) // 400 * 146097
+    yy2 = miny % 400 + 2000
+    dn_min = cal.day_number(yy2, 1, 1) + (miny - yy2) // 400 * 146097
+    for dn, want in ((dn_max, last), (dn_max + 1, None), (dn_min, first), (dn_min - 1, None), (i32min, None), (i32max, None)):
+        got = _yof_of(call(ND + "::from_num_days_from_ce_opt", [_c(dn)]))
+        chk.expect(got == want, "from_num_days_from_ce_opt(%d)" % dn, "from_num_days_from_ce_opt(%d) = %s, expected %s" % (dn, got, want))
